@@ -11,6 +11,16 @@ def logu(rng, a, b):
     return math.exp(rng.uniform(math.log(a), math.log(b)))
 
 
+def pow_sensitive(rng, lo, hi):
+    """a double t in [lo, hi] with t ** 2 != t * t (libm's pow(t, 2) is not correctly rounded for roughly one double in a
+    thousand): only such values tell a code path that squares with ** from one that multiplies"""
+    for _ in range(200000):
+        t = rng.uniform(lo, hi)
+        if t ** 2 != t * t:
+            return t
+    return rng.uniform(lo, hi)
+
+
 def gen_state(rng, scale=None, default_bias=0.4):
     """Model construction parameters."""
     if rng.random() < default_bias:
@@ -20,6 +30,8 @@ def gen_state(rng, scale=None, default_bias=0.4):
     beta = BETA0 * k
     kappa = 1e-4 if rng.random() < 0.6 else logu(rng, 1e-8, 1e-2)
     tau = rng.choice([0.0, 1e-9 * beta, beta / 50.0, beta / 50.0, 3.0 * beta, rng.uniform(0, 2) * beta])
+    if rng.random() < 0.08:
+        tau = pow_sensitive(rng, 0.01 * beta, 30 * beta)
     st = {"mu": 25.0 * k, "sigma": 25.0 / 3.0 * k, "beta": beta, "kappa": kappa, "tau": tau,
           "gamma": rng.choice(GAMMAS), "limit": rng.random() < 0.3}
     if rng.random() < 0.06:
@@ -65,6 +77,8 @@ def gen_teams_num(rng, st, shape, sigma0_ok=None, ints=True):
     teams = []
     base_mu = rng.uniform(-20, 20)
     base_sg = logu(rng, 1e-4, 10)
+    if mode == "ulp" and rng.random() < 0.5:
+        base_mu *= rng.choice([1e-2, 1e-4, 1e-6])     # one-ulp differences far below the rounding of any probability
     for ti, sz in enumerate(shape):
         team = []
         for _ in range(sz):
@@ -116,6 +130,9 @@ def gen_teams_num(rng, st, shape, sigma0_ok=None, ints=True):
                 t.append((o + 3 * sg, sg))
             out.append(t)
         return out
+    if rng.random() < 0.04:
+        # sigmas for which sigma ** 2 != sigma * sigma
+        return [[(mu * beta, pow_sensitive(rng, 0.05 * beta, 8 * beta)) for mu, _ in team] for team in teams]
     out = []
     use_int = ints and rng.random() < 0.08
     for team in teams:
@@ -268,7 +285,9 @@ def gen_outcome(rng, n):
 def gen_percall(rng, st):
     beta = st["beta"]
     tau = rng.choice([("N",), ("N",), ("N",), ("I", 0), ("F", 0.0), ("F", 1e-9 * beta), ("F", beta / 50.0),
-                      ("F", 3.0 * beta), ("B", True), ("I", 1)])
+                      ("F", 3.0 * beta), ("B", True), ("I", 1), ("F", rng.uniform(0.0, 5.0) * beta)])
+    if tau[0] == "F" and rng.random() < 0.25:
+        tau = ("F", pow_sensitive(rng, 0.01 * beta, 30 * beta))
     lim = rng.choice([("N",), ("N",), ("N",), ("B", True), ("B", False), ("I", 1), ("I", 0)])
     return tau, lim
 
